@@ -5,6 +5,7 @@ Trace == ndJsonDeserialize(IOEnv.VERIF_TRACE)
 FailSet(t) ==
    (IF C10_OK(t.cfg, t.input, t.obs) THEN {} ELSE {"C10"}) \cup
    (IF C04_OK(t.cfg, t.input, t.obs) THEN {} ELSE {"C04"}) \cup
+   (IF C02_OK(t.cfg, t.input, t.obs) THEN {} ELSE {"C02"}) \cup
    (IF C09_OK(t.cfg, t.input, t.obs) THEN {} ELSE {"C09"})
 Verdict(t) == [case |-> t.case, fails |-> FailSet(t), drift |-> ~Conforms(ModelOut(t.cfg, t.input), t.obs)]
 Init == l = 1
